@@ -1,6 +1,7 @@
 package main
 
 import (
+	"os"
 	"fmt"
 	"math"
 	"sort"
@@ -114,6 +115,8 @@ func runEquiv(c *Check, p *Prog, spec eqSpec, points int) *eqResult {
 		res.Und = append(res.Und, "reference: "+strings.Join(sb.Undecided, "; "))
 		return res
 	}
+	normalizeSummary(S, sa)
+	normalizeSummary(S, sb)
 	m := NewMatcher(S, p, rp, sa, sb, uint64(c.Seed)*7919+13, points)
 	for k, v := range refAlias {
 		m.GlobalAlias[k] = v
@@ -122,8 +125,13 @@ func runEquiv(c *Check, p *Prog, spec eqSpec, points int) *eqResult {
 		m.Env.Dom[k] = v
 	}
 	m.IgnoreCallees = spec.Ignore
+	collectConstTables(p, sa, m.Env.Tables)
+	collectConstTables(rp, sb, m.Env.Tables)
 	m.Exact = spec.Exact
 	res.OK = m.Run()
+	if (!res.OK && os.Getenv("VERIF_DUMP_EQ") != "") || os.Getenv("VERIF_DUMP_EQ") == "always" {
+		fmt.Fprintf(os.Stderr, "==== code\n%s==== ref\n%s", sa.Dump(p), sb.Dump(rp))
+	}
 	res.Fails = m.Fails
 	res.NLoops, res.NEvents, res.NCmp = m.nLoops, m.nEvents, m.nCmp
 	res.M = m
@@ -144,6 +152,26 @@ func pointsFor(c *Check) int {
 // checkEquiv emits one obligation for "repository function ≡ reference formulation".
 func checkEquiv(c *Check, p *Prog, rule, key string, spec eqSpec, what string) bool {
 	r := runEquiv(c, p, spec, pointsFor(c))
+	if !r.OK && len(r.Und) == 0 {
+		// other formulations of the same computation (ref functions named <RefName>_alt<k>; each carries its
+		// own equivalence argument with the primary one in its comment): matching any of them is as good
+		if rp, err := LoadRef(); err == nil {
+			for k := 1; k < 10; k++ {
+				alt := fmt.Sprintf("%s_alt%d", spec.RefName, k)
+				if rp.Func(refPkg, alt) == nil {
+					break
+				}
+				sp2 := spec
+				sp2.RefName = alt
+				if r2 := runEquiv(c, p, sp2, pointsFor(c)); r2.OK && len(r2.Und) == 0 {
+					r, spec = r2, sp2
+					break
+				} else if os.Getenv("VERIF_DEBUG_ALT") != "" {
+					fmt.Fprintf(os.Stderr, "alt %s: %v %v\n", alt, r2.Fails, r2.Und)
+				}
+			}
+		}
+	}
 	if c.Tier == "thorough" && r.OK && len(r.Und) == 0 {
 		// two more independent seeds
 		base := c.Seed
@@ -473,19 +501,57 @@ func checkTQCommute(c *Check, p *Prog, rule string) {
 		bad = append(bad, "the loop over the list carries state: "+carriedNames(nonAffine(inLoop)))
 	}
 	elem := S.mkOp("ld", TFloat, in, iterTerm(S, inLoop))
+	// objects written inside the loop (the counters); everything else the loop reads is read-only in it
+	written := map[*Term]bool{}
+	local := map[*Term]bool{} // objects allocated inside the loop: per-element scratch
+	inLoop.Body.Events(func(e *Event, _ []*LoopS) {
+		if e.Kind == "alloc" && e.Res != nil {
+			local[S.SymTerm(e.Res)] = true
+		}
+	})
+	inLoop.Body.Events(func(e *Event, _ []*LoopS) {
+		if e.Kind == "store" && !local[e.Root] {
+			written[e.Root] = true
+		}
+	})
+	readsCounter := func(t *Term) bool {
+		found := false
+		if t == nil {
+			return false
+		}
+		Walk(t, map[*Term]bool{}, func(u *Term) {
+			if u.K == KSym && u.Sym.Ev != nil && u.Sym.Ev.Kind == "load" && written[u.Sym.Ev.Root] {
+				found = true
+			}
+		})
+		return found
+	}
 	inLoop.Body.Events(func(e *Event, _ []*LoopS) {
 		switch e.Kind {
 		case "load":
-			if len(e.Path) != 1 || !e.Path[0].IsConst() || mentions(e.Root, in) {
+			if mentions(e.Root, in) {
 				bad = append(bad, "load "+e.String(p))
 			}
+			// a load of a counter is accepted with the increment it feeds (below); any other object is not written in the loop
+		case "alloc":
 		case "store":
 			okk := false
-			if len(e.Path) == 1 && e.Path[0].IsConst() && !mentions(e.Val, in) {
+			if local[e.Root] {
+				// filling per-element scratch: fine as long as nothing from the counters or other elements flows in
+				if !readsCounter(e.Val) && !mentionsOther(e.Val, in, elem) {
+					break
+				}
+			}
+			if !mentions(e.Val, in) {
 				as, cs, off := linParts(e.Val)
 				if len(as) == 1 && cs[0].Int64() == 1 && off.Int64() == 1 && as[0].K == KSym && as[0].Sym.Ev != nil && as[0].Sym.Ev.Kind == "load" && as[0].Sym.Ev.Root == e.Root && samePath(as[0].Sym.Ev.Path, e.Path) {
 					okk = true
 					nInc++
+				}
+			}
+			for _, ix := range e.Path {
+				if readsCounter(ix) {
+					okk = false
 				}
 			}
 			if !okk {
@@ -494,12 +560,28 @@ func checkTQCommute(c *Check, p *Prog, rule string) {
 		default:
 			bad = append(bad, e.Kind+" "+e.String(p))
 		}
+		if readsCounter(e.Guard) {
+			bad = append(bad, "guard depends on a counter: "+e.String(p))
+		}
 		// the element may appear in guards only as ld(in, i)
 		Walk(e.Guard, map[*Term]bool{}, func(t *Term) {
 			if t.Op == "ld" && len(t.Args) >= 1 && t.Args[0] == in && t != elem {
 				bad = append(bad, "guard reads another element: "+t.String())
 			}
 		})
+	})
+	// inner loops (a scan over a bounds table) are per-element: they start from constants and never look at the counters
+	inLoop.Body.AllLoops(func(l *LoopS) {
+		for _, cv := range l.Carried {
+			if readsCounter(cv.Init) || readsCounter(cv.Next) || mentionsOther(cv.Init, in, elem) || mentionsOther(cv.Next, in, elem) {
+				bad = append(bad, "inner loop state "+cv.Name+" depends on the counters or on another element")
+			}
+		}
+		for _, ex := range l.Exits {
+			if readsCounter(ex.Guard) || mentionsOther(ex.Guard, in, elem) {
+				bad = append(bad, "inner loop exit depends on the counters or on another element")
+			}
+		}
 	})
 	// after the loop the input is used only through its length
 	sum.Top.Events(func(e *Event, loops []*LoopS) {
@@ -528,8 +610,8 @@ func checkTQCommute(c *Check, p *Prog, rule string) {
 			bad = append(bad, "element read outside the binning loop: "+e.String(p))
 		}
 	})
-	c.Expect(len(bad) == 0 && nInc >= 2, rule, "ThresholdQ", where,
-		fmt.Sprintf("the binning loop's only effects are %d constant-index `+1` increments guarded by comparisons of the current element; elements are read nowhere else => permutation-invariant", nInc),
+	c.Expect(len(bad) == 0 && nInc >= 1, rule, "ThresholdQ", where,
+		fmt.Sprintf("the binning loop's only effects are %d `+1` increments of counters whose index and guard depend on the current element alone (never on a counter); elements are read nowhere else => permutation-invariant", nInc),
 		strings.Join(bad, " | "))
 }
 
@@ -555,4 +637,18 @@ func thresholdBoundIsInteger(s int64) bool {
 		return false
 	}
 	return (99*s-d)%100 == 0
+}
+
+// mentionsOther: t reads an element of in other than elem.
+func mentionsOther(t, in, elem *Term) bool {
+	found := false
+	if t == nil {
+		return false
+	}
+	Walk(t, map[*Term]bool{}, func(u *Term) {
+		if u.Op == "ld" && len(u.Args) >= 1 && u.Args[0] == in && u != elem {
+			found = true
+		}
+	})
+	return found
 }
